@@ -1,9 +1,17 @@
 package s0291
 
+type G3 struct {
+	F0x0x0x0 int32
+}
+
+type G2 struct {
+	F0x0x0 G3
+}
+
+type G1 struct {
+	F0x0 G2
+}
 
 type T struct {
-	F0 *int32
-	F1 int64
-	F2 uint32
-	F3 uint64
+	F0 []G1
 }
